@@ -19,6 +19,11 @@ import RotoV.Lemmas.TcRules
 import RotoV.Lemmas.UnifyTc
 import RotoV.Lemmas.TypingMono
 import RotoV.Lemmas.TypingProg
+import RotoV.Model.TcInfer
+import RotoV.Model.TcInferPinned
+import RotoV.Generated.C07Arms
+import RotoV.Lemmas.TcInferUnify
+import RotoV.Lemmas.TcInferSound
 
 namespace RotoV.C07
 open RotoV.Typing RotoV.TcRules
@@ -372,5 +377,61 @@ theorem scope_keys_unique (ds : List (Key × DKind)) (t : Table) (h : insertAll 
 
 example : insertAll [] [((1, 5), .valueLocal), ((1, 5), .valueLocal)] = none := by decide
 example : (insertAll [] [((1, 5), .function false), ((1, 5), .function true)]).isSome = true := by decide
+
+/-! ## T2, the other half — a successful unification equates the two types
+
+  For the types the core language can produce (`TcInfer.WT`: variables, literal
+  variables, `()`, type names applied to the right number of well-formed
+  arguments — no anonymous records, no function types, no `!` inside): a
+  successful `unify_inner` leaves a well-formed store, only ever STRENGTHENS it
+  (every solution of the new store solves the old one), and every solution of
+  the new store gives the two types the same meaning. "Solution" is semantic
+  (`TcInfer.Sat`: a valuation of all variables under which every slot's content
+  denotes the slot's value and literal variables have values of their kind —
+  an integer type, a signed one once negated, a float type), so no pointer chain
+  has to be followed. For every store, every pair of types, every fuel. -/
+
+open RotoV.Unify RotoV.TcInfer in
+/-- **T2 `unify_equates`.** -/
+theorem unify_equates (env : Env) (fuel : Nat) (s s' : Store) (a b t : MTy)
+    (hW : WTs s) (ha : WT a = true) (hb : WT b = true)
+    (h : unify (mkDefs env) fuel s a b = .ok t s') :
+    WTs s' ∧ ∀ σ : Val, Sat σ s' → Sat σ s ∧ den σ a = den σ b :=
+  (unify_sound (mkDefs_std env) fuel).1 s a b t s' hW ha hb h
+
+open RotoV.Unify RotoV.TcInfer in
+/-- the same for `TypeChecker::unify(expected, found)` -/
+theorem unify_top_equates (env : Env) (fuel : Nat) (s s' : Store) (a b t : MTy)
+    (hW : WTs s) (ha : WT a = true) (hb : WT b = true)
+    (h : unifyTop (mkDefs env) fuel s a b = .ok t s') :
+    WTs s' ∧ ∀ σ : Val, Sat σ s' → Sat σ s ∧ den σ a = den σ b :=
+  unifyTop_sound (mkDefs_std env) fuel s a b t s' hW ha hb h
+
+open RotoV.Unify RotoV.TcInfer in
+/-- non-vacuity: `let y = 1;` then `y` against `Option[i8]`'s argument — the
+    store has a solution, and it sends the literal variable to `i8` -/
+example :
+    let s : Store := [.intVar 0 false, .var 1]
+    (match unify (mkDefs ⟨[], [], []⟩) 8 s (tOption (.intVar 0 false)) (tOption (.name 4 [])) with
+      | .ok _ s' => s' == [.name 4 [], .var 1]
+      | _ => false) = true := by decide +kernel
+
+/-! ## T3 — the inference pass is the code's -/
+
+/-- **The arms of `TypeChecker::expr` are the ones `Model/TcInfer.lean` was
+    written from**: which helper each arm calls, in which order, with which
+    expected type (`Generated/C07Arms.lean`, regenerated from
+    src/typechecker/expr.rs on every run, against the pinned copy). -/
+theorem expr_arms_as_modelled : C07Arms.exprArms = TcInferPinned.exprArms := rfl
+/-- … the arms of `TypeChecker::stmt` -/
+theorem stmt_arms_as_modelled : C07Arms.stmtArms = TcInferPinned.stmtArms := rfl
+/-- … the arms of `TypeChecker::literal` -/
+theorem literal_arms_as_modelled : C07Arms.literalArms = TcInferPinned.literalArms := rfl
+/-- … `block`, `match_expr`, `binop`, `check_arguments`, `record_fields`,
+    `path_function_call`, `method_call`, `access_field`, `function`, `constant`,
+    `filter_map`, `test`, `unify` -/
+theorem helper_skeletons_as_modelled : C07Arms.fnSkeletons = TcInferPinned.fnSkeletons := rfl
+
+example : C07Arms.exprArms.length = 20 := by decide
 
 end RotoV.C07
